@@ -220,7 +220,13 @@ class LazyInit(Strategy):
         ordered = sorted(self.all_sites)
         if self.at is not None:
             f, ln = self.at
-            self.sites = frozenset(x for x in ordered if x[0] == f and abs(x[1] - ln) <= 6)
+            group = [x for x in ordered if x[0] == f and abs(x[1] - ln) <= 6]
+            # usually one single line of the group is the parking place of this run, so that every
+            # statement boundary inside a lazy-initialisation body gets its turn (before the
+            # check-then-act store, between two stores, after the last one)
+            if group and sim.rng.random() < 0.7:
+                group = [group[sim.rng.randrange(len(group))]]
+            self.sites = frozenset(group)
         else:
             self.sites = frozenset(x for x in ordered if sim.rng.random() < self.frac)
         self.parked = set()
